@@ -355,6 +355,18 @@ def quick_cases(rng, max_n=12, max_pow2=32, wlen=4, wmax=3, n_random_w=40, pp_ma
             for kind in ('weighted', 'naive'):
                 for which in ('XAIG', 'AIG'):
                     cases.append(mk_weighted(rng, kind, pp_shape(n, m), rng.random() < 0.3, spell(rng, which)))
+    # level-count patterns (first, mid * k, last): long carry chains, the shapes on which the gate-count
+    # bounds are tight (D27 was found on 6, 3 * 6, 1)
+    for _ in range(8 if not thorough else 60):
+        counts = [rng.randint(1, 8)] + [rng.randint(1, 4)] * rng.randint(1, 7 if not thorough else 12) + [rng.randint(0, 3)]
+        if rng.random() < 0.4:
+            counts[rng.randrange(len(counts))] = rng.randint(0, 6)
+        ws = [lev for lev, c in enumerate(counts) for _ in range(c)]
+        if not ws or len(ws) > 48:
+            continue
+        for kind in ('weighted', 'naive'):
+            for which in ('XAIG', 'AIG'):
+                cases.append(mk_weighted(rng, kind, ws, False, spell(rng, which), shuffle=rng.random() < 0.5))
     for n in range(1, max_n + 1):            # all weights equal: the bit counter as a weighted sum
         for kind in ('weighted', 'naive'):
             for which in ('XAIG', 'AIG'):
